@@ -35,10 +35,12 @@ func genSpec(rng *rand.Rand, id int) Spec {
 		WriteTimeout: pick(rng, []int{300, 600}), Hammer: rng.IntN(5) < 2, During: rng.IntN(2) == 0}
 	r := rng.IntN(100)
 	switch {
-	case r < 50:
+	case r < 45:
 		sp.Target = "server"
-	case r < 65:
+	case r < 58:
 		sp.Target = "stream"
+	case r < 68:
+		sp.Target = "session"
 	default:
 		sp.Target = "client"
 	}
@@ -72,6 +74,15 @@ func genSpec(rng *rand.Rand, id int) Spec {
 				sp.Hammer = true
 			}
 		}
+	case "session":
+		// ServerSession.Close() of peer 0's session while the server keeps running and the peers keep going
+		n := 1 + rng.IntN(3)
+		sp.Peers = append(sp.Peers, PeerSpec{Kind: "client", Mode: pick(rng, []string{"play", "record", "record"}), Proto: pick(rng, []string{"udp", "tcp"})})
+		for i := 1; i < n; i++ {
+			sp.Peers = append(sp.Peers, genPeer(rng, false))
+		}
+		sp.ClosePoint = StepSetup0 + rng.IntN(StepFlow2-StepSetup0+1)
+		sp.During = rng.IntN(3) == 0
 	case "stream":
 		n := 1 + rng.IntN(4)
 		for i := 0; i < n; i++ {
@@ -111,7 +122,7 @@ func genSpec(rng *rand.Rand, id int) Spec {
 func sweep(rng *rand.Rand) []Spec {
 	var out []Spec
 	id := 0
-	for _, target := range []string{"server", "stream", "client"} {
+	for _, target := range []string{"server", "stream", "session", "client"} {
 		for _, mode := range []string{"play", "record"} {
 			if target == "stream" && mode == "record" {
 				continue
@@ -119,6 +130,9 @@ func sweep(rng *rand.Rand) []Spec {
 			for _, proto := range []string{"udp", "tcp"} {
 				for cp := 0; cp < NumSteps; cp++ {
 					if target == "client" && cp == StepTeardown {
+						continue
+					}
+					if target == "session" && (cp < StepSetup0 || cp == StepTeardown) {
 						continue
 					}
 					for _, during := range []bool{false, true} {
@@ -204,7 +218,7 @@ func (c *child) exec1(sp Spec) (oc *Outcome, crashed bool, why string) {
 	case r := <-ch:
 		if r.err != nil {
 			c.cmd.Wait()
-			return nil, true, "child died: " + tail(c.stderr.String(), 6000)
+			return nil, true, "child died: " + headTail(c.stderr.String(), 3000)
 		}
 		oc = &Outcome{}
 		if err := json.Unmarshal(r.line, oc); err != nil {
@@ -214,6 +228,13 @@ func (c *child) exec1(sp Spec) (oc *Outcome, crashed bool, why string) {
 	case <-time.After(hangAfter + 40*time.Second):
 		return nil, true, "child did not answer"
 	}
+}
+
+func headTail(s string, n int) string {
+	if len(s) > 2*n {
+		return s[:n] + "\n…\n" + s[len(s)-n:]
+	}
+	return s
 }
 
 func tail(s string, n int) string {
